@@ -147,3 +147,38 @@ def asset_corr(ctx, specs, parts, tag, want=None):
                 ctx.broken('correspondence-broken', {'spec': sp, 'asset': a,
                                                      'theorem_or_correspondence': '%s.setup_optim_problem vs model builder: %s' % (a['kind'], nm)})
     return len(exprs)
+
+
+def split_twin_specs(seed, n, tag, split=True):
+    """portfolios whose assets come in twins with complementary windows meeting at a split boundary and different
+    parameters: the interval problems have the same shape but different content"""
+    import random, gen
+    out = []
+    for i in range(n):
+        rng = random.Random('%s/%s/%d' % (seed, tag, i))
+        cfg = {'freqs': ['h'], 'tzs': [None], 'T': (6, 6), 'units': ['h', 'd'], 'p_unaligned_end': 0.0, 'nodes': (2, 3),
+               'n_assets': (0, 1), 'p_market': 1.0, 'p_window': 0.0, 'kinds': {'SimpleContract': 1, 'Storage': 1}}
+        sp = gen.gen_portfolio(rng, cfg)
+        g = sp['grid']
+        pts = gen.grid_points(g)
+        mid = gen.fmt(pts[3])
+        nodes = sorted(set(n for a in sp['assets'] for n in a['nodes']))
+        for k in range(rng.randint(1, 2)):
+            n1, n2 = rng.sample(nodes, 2)
+            kind = rng.choice(['Transport', 'Transport', 'MultiCommodityContract'])
+            for half, (s0, e0) in enumerate(((None, mid), (mid, None))):
+                if kind == 'Transport':
+                    a = {'kind': 'Transport', 'name': 'tw%d_%d' % (k, half), 'nodes': [n1, n2], 'min_cap': 0.0, 'max_cap': gen.k8(rng, 2, 8),
+                         'efficiency': rng.choice([1.0, 0.5, 0.75, 0.875, 0.625]), 'costs_const': gen.k8(rng, 0, 1)}
+                else:
+                    a = {'kind': 'MultiCommodityContract', 'name': 'tw%d_%d' % (k, half), 'nodes': [n1, n2], 'price': gen.new_price(rng, g, sp['prices']),
+                         'min_cap': 0.0, 'max_cap': gen.k8(rng, 1, 6), 'factors_commodities': [1.0, rng.choice([0.5, -0.5, 0.25, 2.0, -1.0, 1.5])]}
+                if s0: a['start'] = s0
+                if e0: a['end'] = e0
+                sp['assets'].append(a)
+        if split:
+            sp['opts']['split'] = '3h'
+        sp['id'] = '%s%d' % (tag, i)
+        sp['seed'] = '%s/%s/%d' % (seed, tag, i)
+        out.append(sp)
+    return out
